@@ -224,7 +224,10 @@ def main(argv):
     if harness_errors:
         for name, err in harness_errors[:3]:
             print("HARNESS-ERROR in check %s:\n%s" % (name, err))
-        return 2
+        # a violation found by another check stands on its own (its replay file re-runs the
+        # judge); without one the run is inconclusive
+        if not violations:
+            return 2
     if violations:
         seen = set()
         for v in violations:
